@@ -1,6 +1,9 @@
 (* C22: one claim per generated enumeration site (Det/Sites.v), each proved over a small hand-written model
    of the code around the site (Det/HashOrder.v).  The `match` below must be exhaustive: when the scanner
-   reports a new site, Sites.v gets a new constructor and this file no longer compiles. *)
+   reports a new site, Sites.v gets a new constructor and this file no longer compiles.
+   (The former site apollo-smith/src/implements_graph.rs topo_order_parents_first `self.by_name.keys()`, whose claim
+   was FormOrderLeaks, is gone with the repair of smith_implements_cycle_order: the fallback no longer enumerates
+   the HashMap.  If that expression comes back, the scanner reports it and this file stops compiling.) *)
 From Coq Require Import Sorting.Permutation.
 From ApolloVerif Require Import Base.Chars Valid.Guards Valid.SortProofs Det.HashOrder Det.Sites.
 
@@ -9,7 +12,6 @@ Inductive coverage_form := FormOrderIrrelevant | FormSortedAfter | FormOrderLeak
 Definition site_form (s : site_id) : coverage_form :=
   match s with
   | site_apollo_compiler_src_validation_variable_rs_validate_unused_variables_1 => FormSortedAfter
-  | site_apollo_smith_src_implements_graph_rs_topo_order_parents_first_1 => FormOrderLeaks
   end.
 
 Definition site_claim (s : site_id) : Prop :=
@@ -20,12 +22,6 @@ Definition site_claim (s : site_id) : Prop :=
        locations *)
     SortedAfter (@fst gd_key str) hv_emit /\
     forall vars used, NoDup (map snd vars) -> NoDup (map fst (hv_emit (hv_unused vars used)))
-  | site_apollo_smith_src_implements_graph_rs_topo_order_parents_first_1 =>
-    (* `Err(_) => self.by_name.keys().cloned().collect()`: only when the implements graph has a cycle; then the
-       returned order is the hash order.  Without a cycle the site is not reached. *)
-    forall (G : Type) (toposort : G -> option (list str)) (g : G),
-      (forall ord, toposort g = Some ord -> OrderIrrelevant (smith_topo_order G toposort g)) /\
-      (toposort g = None -> OrderLeaks (smith_topo_order G toposort g))
   end.
 
 Theorem sites_covered : forall s, In s generated_sites -> site_claim s.
@@ -33,9 +29,6 @@ Proof.
   intros s _. destruct s; cbn [site_claim].
   - split; [apply sorted_after_map|].
     intros vars used H. unfold hv_emit. rewrite map_map. cbn [fst]. now apply hv_unused_nodup.
-  - intros G toposort g. split.
-    + intros ord H. eapply smith_topo_acyclic; eauto.
-    + intros H. apply (smith_topo_cyclic_leaks G toposort g [97] [98] H). discriminate.
 Qed.
 
 (* every constructor of site_id is in the generated list (the scanner's output is complete w.r.t. itself) *)
